@@ -23,6 +23,28 @@ chk(
     "DESIGN.md 4 C15",
 )
 
+chk(
+    "C12",
+    "bounded-exhaustive token enumeration + seeded Hypothesis author lists; conservation/idempotence invariants and differential against an independent word-based reference splitter",
+    "Exploration: every string spelled by <= 5 (quick) / <= 6 (thorough) tokens of a 16-token alphabet covering every state of the and-scanner (words, and/And/AND, partial an/d, blanks, tab, newline, '~', braces, comma, escapes, lone backslash) is checked for conservation and idempotence, and - when brace-balanced - for equality with an independent reference splitter that was first validated on the repository's 44 BibTeX-derived cases; long random author lists and the SeparateCoAuthors/MergeCoAuthors middlewares (default and custom name_fields, in-place and copy) are searched with seeded Hypothesis.",
+    "Trusted: pbt/refnames.py split_names (word-based reference), the conservation regex. Exact rule only on brace-balanced input, as the property states.",
+    "DESIGN.md 4 C12",
+)
+chk(
+    "C13",
+    "bounded-exhaustive token- and word-level enumeration of names + seeded Hypothesis; differential against an executable transcription of BibTeX's name rules validated on the repo corpus; conservation invariant",
+    "Exploration: every name of <= 5/6 tokens over a 13-token alphabet and every name of 1..4/5 words over 8 word classes with every separator choice (<= 2 commas) is compared with an executable transcription of the First/von/Last/Jr rules of the statement (validity verdict and the four lists) that is first validated on the repository's 149+11 BibTeX-derived cases; conservation per comma section is checked independently of the reference; SplitNameParts is checked to turn invalid names into a MiddlewareErrorBlock retaining the entry.",
+    "Trusted: pbt/refnames.py tokenize_name/word_case/parse_name. Word case is left unspecified (partition not compared) for shapes the statement does not define (special-character look-alikes nested in ordinary groups etc.).",
+    "DESIGN.md 4 C13",
+)
+chk(
+    "C14",
+    "round-trip (inverse pair) over bounded-exhaustive word/token enumerations and seeded Hypothesis person lists, through the functions, the four middlewares and the full parse/write/parse stack",
+    "Exploration: for every in-domain author value (domain decided by the reference tokeniser: valid names, non-empty Last, no word ending in an odd number of backslashes, no bare 'and') split+parse, merge last-name-first, join and split+parse again must give the same persons and parts; enumerated over all token sequences <= 5/6 and all word sequences <= 4/5 (+1 with reduced separators), random lists of 1-6 persons, the four middlewares on Library objects and parse_string(append_middleware)/write_string(prepend_middleware)/parse_string with braced and quoted values.",
+    "Trusted: the domain predicate (pbt/refnames.py); known finding F-20 (merged value ending in a backslash) is excluded by a predicate and reported as KNOWN-FINDING.",
+    "DESIGN.md 4 C14",
+)
+
 ALL = ["C%02d" % i for i in range(1, 21)]
 NOT_YET = "check not built yet in this revision of /verif (see DESIGN.md section 4 for its design); not claimed"
 
